@@ -579,7 +579,9 @@ func (fr *Frame) instr(b *ssa.BasicBlock, in ssa.Instruction, st *State) *Exit {
 		fn += fmt.Sprintf("_%d", x.Field)
 		fe.pre.decl(fmt.Sprintf("(declare-fun %s (Int) Int)", fn))
 		base := fr.val(x.X).S
-		fr.setVal(x, fmt.Sprintf("(%s %s)", fn, base))
+		t := fr.setVal(x, fmt.Sprintf("(%s %s)", fn, base))
+		// the address of a field of a non-nil struct is not nil
+		fe.assume(fmt.Sprintf("(=> (not (= %s 0)) (not (= %s 0)))", base, t.S))
 	case *ssa.IndexAddr:
 		idx := fr.val(x.Index).S
 		switch t := x.X.Type().Underlying().(type) {
